@@ -7,7 +7,7 @@
 (* space enumerated here is what the harness replays against the real      *)
 (* binaries (SessionTrace.tla validates what the simulators recorded).     *)
 (***************************************************************************)
-EXTENDS Integers, Sequences, FiniteSets, TLC
+EXTENDS Integers, Sequences, FiniteSets, TLC, SessionProps
 
 CONSTANTS MaxN      \* maximal number of pending change commands
 
@@ -43,9 +43,6 @@ WellFormed(p) ==
   /\ (p.fphase \in {"arm", "disarm"} => p.type = "ios")
   /\ (p.fphase = "apply" => p.fidx <= p.n) /\ (p.fphase # "apply" => p.fidx = 1)
   /\ (p.fkind = "none" => p.fphase = "login")
-
-\* C06: the device must not be changed
-Bad(p) == ~p.nameOK \/ p.marker = "absent" \/ p.ha = "passive"
 
 Init ==
   /\ par \in {p \in Params : WellFormed(p)}
@@ -125,22 +122,6 @@ Next == Login \/ Setup \/ NameCheck \/ Fetch \/ Gate \/ Arm \/ Apply \/ Disarm \
 Spec == Init /\ [][Next]_vars
 
 -----------------------------------------------------------------------------
-(* The properties, as predicates over (parameters, observed counters) so that the trace   *)
-(* specification can evaluate them on what the simulators recorded.                        *)
-
-\* C06
-C06(p, changes, sv, code, dg) ==
-  (p.verb = "approve" /\ Bad(p)) => (changes = 0 /\ ~sv /\ code # 0 /\ dg)
-\* C11
-C11(p, changes, sv) == p.verb = "compare" => (changes = 0 /\ ~sv)
-\* C09, first half: a noticed fault stops the run and is reported
-C09stop(p, faultSeen, pf, sv, code, st, he) ==
-  faultSeen => /\ pf = 0 /\ ~sv /\ code # 0
-               /\ (p.fe = "doapprove" => st = (IF p.verb = "approve" THEN "FAILED" ELSE "DIFF") /\ he = "FAILED")
-\* C09, second half: OK only if everything was accepted and the save confirmed
-C09ok(p, st, sent, acc, sv, faultSeen) ==
-  (st = "OK") => (~faultSeen /\ acc = sent /\ (sent > 0 /\ p.type \notin {"linux", "nsx"} => sv))
-
 InvC06 == ph = "end" => C06(par, naccepted, saved, exitc, diag)
 InvC11 == C11(par, nsent, saved)
 InvC09 == ph = "end" => /\ C09stop(par, noticed, postFault, saved, exitc, status, histEnd)
